@@ -77,8 +77,8 @@ type Term struct {
 	gen  bool
 }
 
-func lit(b []byte) Term       { return Term{lit: b} }
-func gen(n, seed int) Term    { return Term{n: n, seed: seed, gen: true} }
+func lit(b []byte) Term    { return Term{lit: b} }
+func gen(n, seed int) Term { return Term{n: n, seed: seed, gen: true} }
 func (t Term) Bytes() []byte {
 	if t.gen {
 		return genBytes(t.n, t.seed)
